@@ -263,6 +263,19 @@ class Scenario:
             self.check_not_reachable(idx, 'destructor ran')
         if 'C13' in self.oracles:
             self.check_not_reachable(idx, 'destructor ran', prop='C13')
+            # weaker than reachability from the program: a value whose destructor is running further up the stack (it is
+            # dropping its fields one by one and is not part of this collection) still holds a strong handle to the object;
+            # destroying the object now leaves that handle dangling
+            n_anc = 0
+            for pid in self.dtor_stack:
+                for hv, tgt in self.payloads[pid].strong:
+                    if tgt == idx:
+                        n_anc += 1
+            if n_anc:
+                self.subject = [idx]
+                raise Violation('C13', 'destroyed-while-held',
+                                'destructor ran for object %d although the value %s, whose fields are still being dropped, holds %d more strong handle(s) to it'
+                                % (idx, self.dtor_stack[-1], n_anc), self.model_values(None))
         if 'C12' in self.oracles:
             self.check_not_reachable(idx, 'destructor ran', prop='C12')
         oi.destroyed = True
